@@ -320,62 +320,64 @@ def parseTypeStep (F : Nat) (rec : Core) (tok : Option CTok) (operatorOk : Bool)
     returnToken tok
     pure (some (.type pq const volatile), mods)
 
-/-- `_parse_cv_ptr_or_fn(dtype, nonptr_fn)` -/
-def parseCvPtrOrFnStep (F : Nat) (rec : Core) (dtype : DType) (nonptrFn : Bool) : M DType := do
-  let dtype ← loopN F dtype (fun dtype => do
-    match (← tokenIf ["*", "const", "volatile", "("]) with
-    | none => pure (.inr dtype)
-    | some tok =>
-      if tok.type = "*" then
-        if isRefLike dtype then raiseParseError (some tok) else pure (.inl (.ptr dtype false false))
-      else if tok.type = "const" then
-        match setConst dtype with
-        | some d => pure (.inl d)
-        | none => raiseParseError (some tok)
-      else if tok.type = "volatile" then
-        match setVolatile dtype with
-        | some d => pure (.inl d)
-        | none => raiseParseError (some tok)
-      else if nonptrFn then do
-        -- remove any inner grouping parens
-        loopN F () (fun _ => do
-          match (← tokenIf ["("]) with
-          | none => pure (.inr ())
-          | some gtok => do
-            let toks ← consumeBalancedTokens F [gtok]
-            returnTokens (inner toks)
-            pure (.inl ()))
-        let (fnParams, vararg, _) ← rec.parseParameters false
-        if isFnType dtype then pyRaise "AssertionError" ""
-        else
-          match (← tokenIf ["ARROW"]) with
-          | some _ => do
-            let rt ← parseTrailingReturnType rec (some dtype)
-            pure (.inl (.fn rt fnParams vararg true none none))
-          | none => pure (.inl (.fn dtype fnParams vararg false none none))
-      else do
-        let msvcTok ← tokenIfVal Gen.msvcConventions
-        let msvc := msvcTok.map (·.value)
-        -- Check to see if this is a grouping paren or something else
-        if !(← tokenPeekIf ["*", "&"]) then do
-          returnToken tok
-          pure (.inr dtype)
-        else do
-          let toks ← consumeBalancedTokens F [tok]
-          let dtype ← (do
-            match (← tokenIf ["[", "("]) with
-            | none => pure dtype
-            | some aptok =>
-              if aptok.type = "[" then
-                if isFnType dtype then pyRaise "AssertionError" ""
-                else parseArrayType F aptok dtype
-              else do
-                let (fnParams, vararg, _) ← rec.parseParameters false
-                if isFnType dtype then pyRaise "AssertionError" ""
-                else pure (.fn dtype fnParams vararg false none msvc))
+/-- one iteration of the first `while True:` of `_parse_cv_ptr_or_fn` -/
+def cvPtrBody (F : Nat) (rec : Core) (nonptrFn : Bool) (dtype : DType) : M (DType ⊕ DType) := do
+  match (← tokenIf ["*", "const", "volatile", "("]) with
+  | none => pure (.inr dtype)
+  | some tok =>
+    if tok.type = "*" then
+      if isRefLike dtype then raiseParseError (some tok) else pure (.inl (.ptr dtype false false))
+    else if tok.type = "const" then
+      match setConst dtype with
+      | some d => pure (.inl d)
+      | none => raiseParseError (some tok)
+    else if tok.type = "volatile" then
+      match setVolatile dtype with
+      | some d => pure (.inl d)
+      | none => raiseParseError (some tok)
+    else if nonptrFn then do
+      -- remove any inner grouping parens
+      loopN F () (fun _ => do
+        match (← tokenIf ["("]) with
+        | none => pure (.inr ())
+        | some gtok => do
+          let toks ← consumeBalancedTokens F [gtok]
           returnTokens (inner toks)
-          let d ← rec.parseCvPtrOrFn dtype nonptrFn
-          pure (.inr d))
+          pure (.inl ()))
+      let (fnParams, vararg, _) ← rec.parseParameters false
+      if isFnType dtype then pyRaise "AssertionError" ""
+      else
+        match (← tokenIf ["ARROW"]) with
+        | some _ => do
+          let rt ← parseTrailingReturnType rec (some dtype)
+          pure (.inl (.fn rt fnParams vararg true none none))
+        | none => pure (.inl (.fn dtype fnParams vararg false none none))
+    else do
+      let msvcTok ← tokenIfVal Gen.msvcConventions
+      let msvc := msvcTok.map (·.value)
+      -- Check to see if this is a grouping paren or something else
+      if !(← tokenPeekIf ["*", "&"]) then do
+        returnToken tok
+        pure (.inr dtype)
+      else do
+        let toks ← consumeBalancedTokens F [tok]
+        let dtype ← (do
+          match (← tokenIf ["[", "("]) with
+          | none => pure dtype
+          | some aptok =>
+            if aptok.type = "[" then
+              if isFnType dtype then pyRaise "AssertionError" ""
+              else parseArrayType F aptok dtype
+            else do
+              let (fnParams, vararg, _) ← rec.parseParameters false
+              if isFnType dtype then pyRaise "AssertionError" ""
+              else pure (.fn dtype fnParams vararg false none msvc))
+        returnTokens (inner toks)
+        let d ← rec.parseCvPtrOrFn dtype nonptrFn
+        pure (.inr d)
+
+/-- the reference suffix of `_parse_cv_ptr_or_fn` -/
+def cvRefTail (rec : Core) (nonptrFn : Bool) (dtype : DType) : M DType := do
   match (← tokenIf ["&", "DBL_AMP"]) with
   | none => pure dtype
   | some tok =>
@@ -383,6 +385,11 @@ def parseCvPtrOrFnStep (F : Nat) (rec : Core) (dtype : DType) (nonptrFn : Bool) 
     else do
       let d : DType := if tok.type = "&" then .ref dtype else .mref dtype
       if (← tokenPeekIf ["("]) then rec.parseCvPtrOrFn d nonptrFn else pure d
+
+/-- `_parse_cv_ptr_or_fn(dtype, nonptr_fn)` -/
+def parseCvPtrOrFnStep (F : Nat) (rec : Core) (dtype : DType) (nonptrFn : Bool) : M DType := do
+  let dtype ← loopN F dtype (cvPtrBody F rec nonptrFn)
+  cvRefTail rec nonptrFn dtype
 
 /-- `_parse_parameter(tok, cls, concept_ok, end)`; both `Parameter` and
     `TemplateNonTypeParam` take (type, name, default, param_pack) -/
